@@ -16,14 +16,14 @@ advancing / the min-age ticker / the one-time history-pruner migration, for any 
 `OldestRetainedBlock` reports); `answer` — what the node answers; `twinAnswer` — what the unpruned twin
 answers; `s.cutoff` — the wall clock minus the configured minimum age.
 
-/repo contains the REPAIRED prune procedure (`Cfg.fixed = true`, 55da2ac) and the repaired migration
-(`migSkipsMissing`, `migZeroNoop`; 322dd0d, 3c301f0): the theorems below are stated for them.
-Three clauses of the property do NOT hold for the code in /repo; each has a `_partial` theorem (what does
+/repo contains the REPAIRED prune procedure (`Cfg.fixed = true`, 55da2ac), the repaired migration
+(`migSkipsMissing`, `migZeroNoop`; 322dd0d, 3c301f0) and the clamp of stale new-head events (`l2Clamps`,
+868e51a): the theorems below are stated for them.
+Two clauses of the property do NOT hold for the code in /repo; each has a `_partial` theorem (what does
 hold) and a proved negation with a reachable witness, the history the harness replays on the real code:
  * `ContractStorageLastUpdatedBlock` on the legacy backend after a prune (`last_update_block_*`),
- * a historical reader held across a prune on the legacy backend (`held_reader_*`),
- * a new-head event for a block that is no longer on the chain (`stale_new_head_event_*`; full strength
-   for the proposed clamp `Cfg.l2Clamps`).
+ * a historical reader held across a prune on the legacy backend (`held_reader_*`; full strength for the
+   proposed guard `Cfg.readerGuard`).
 -/
 namespace Juno.C16.Props
 open Juno.C16
@@ -40,8 +40,8 @@ theorem floor_bound_l1 (c : Cfg) (sampled : UInt64) (head : Nat) (l1 keep : UInt
 
 /-- New-head path (`onNewBlock`): whenever the guards let an event for block `n` through,
 `n - retained` did not underflow, `n` is strictly below the recorded L1 head, and the target floor is at
-most `min(l1, n) - retained`. (That this is `≤ min(l1, head) - retained` needs `n ≤ head`: see
-`floor_bound_head_partial` / `stale_new_head_event_prunes_head_block`.) -/
+most `min(l1, n) - retained`. (That this is `≤ min(l1, head) - retained` needs `n ≤ head`: `onNewBlock`
+checks it since 868e51a, see `floor_bound_head`.) -/
 theorem floor_bound_l2 (c : Cfg) (sampled l1 n : UInt64) (within : Bool) (h : l2Guard c l1 n = false) :
     c.retained.toNat ≤ n.toNat ∧ (l2Keep c sampled n within).toNat + c.retained.toNat ≤ min l1.toNat n.toNat := by
   have := l2Keep_bound c sampled l1 n within h; omega
@@ -60,32 +60,9 @@ theorem floor_bound_history (c : Cfg) (s : St) (R : Reach c s) (ops : List Op) (
     effFloor (run c s ops) ≤ max (effFloor s) (maxAllowed c s ops) ∧ lo s.db ≤ lo (run c s ops).db :=
   floor_run_le ops s R L
 
-/-- `head - retained` for the head the node has NOW. -/
-def headBound (c : Cfg) (s : St) : Nat :=
-  match s.db.height with
-  | some h => h - c.retained.toNat
-  | none => 0
-
-/-- PARTIAL (code in /repo: `onNewBlock` trusts `block.Number`): no step raises the floor above
-`current head - retained`, PROVIDED every new-head event names a block that is on the chain when it is
-handled (`Legal (.evL2 n)` for `l2Clamps = false`). What is missing: `stale_new_head_event_prunes_head_block`. -/
-theorem floor_bound_head_partial (c : Cfg) (hc : c.l2Clamps = false) (s : St) (op : Op) (R : Reach c s)
-    (L : Legal c s op) : effFloor (step c s op).1 ≤ max (effFloor s) (headBound c s) := by
-  have hb := (step_facts op (inv_reach R) L).floorLe
-  have key : allowed c s op ≤ headBound c s := by
-    cases op with
-    | evL2 n =>
-      obtain ⟨_, hl | ⟨h, hh, hn⟩⟩ := L
-      · rw [hc] at hl; cases hl
-      · simp only [allowed, headBound, hh]; cases s.db.l1 <;> simp only <;> omega
-    | evL1 n => simp only [allowed, headBound]; cases s.db.height <;> simp only <;> omega
-    | migrate u => simp only [allowed, headBound]; cases s.db.height <;> cases s.db.l1 <;> simp only <;> omega
-    | _ => simp only [allowed]; omega
-  omega
-
-/-- FULL STRENGTH with the proposed clamp (proposed-fixes/C16-stale-new-head-event.diff: `onNewBlock` ignores
-an event whose block is above the current chain height): no assumption on the events at all — whatever
-block number a new-head event carries, the floor stays at or below `max(old floor, current head - retained)`. -/
+/-- No step raises the floor above `max(old floor, CURRENT head - retained)` — with NO assumption on the events
+(`onNewBlock` ignores a new-head event whose block is above the current chain height, 868e51a): whatever block
+number an event carries, also one of a block that has been reverted while the event sat in the feed buffer. -/
 theorem floor_bound_head (c : Cfg) (hc : c.l2Clamps = true) (s : St) (op : Op) (R : Reach c s)
     (L : Legal c s op) : effFloor (step c s op).1 ≤ max (effFloor s) (headBound c s) := by
   have hb := (step_facts op (inv_reach R) L).floorLe
@@ -327,7 +304,7 @@ theorem last_update_block_lost_below_floor (c : Cfg) (hf : c.fixed = true) (hleg
 /-- Legacy backend, retained 0, 6 blocks, L1 head 4, the code in /repo. -/
 def repairedCfg : Cfg :=
   { retained := 0, l2PerPrune := 1, minAge := false, legacy := true, fixed := true, migSkipsMissing := true,
-    migZeroNoop := true }
+    migZeroNoop := true, l2Clamps := true }
 /-- One COMPLETE, uninterrupted prune of `[0,4)`. -/
 def prunedTo4 : List Op :=
   [.crash true, .store, .store, .store, .store, .store, .store, .writeL1 4, .evL1 4, .flush 4, .finish]
@@ -407,37 +384,16 @@ theorem guarded_held_reader_refused :
 /-! ## stale_new_head_event -/
 
 /-- 8 blocks, L1 head 9 (ahead of the local head), the head is reverted 7 → 3 while the new-head event of
-block 6 still sits in the pruner's 1-slot feed buffer; retained = 1. -/
+block 6 still sits in the pruner's 1-slot feed buffer; retained = 1 (`repairedCfg` = the code in /repo). -/
 def staleCfg : Cfg := { repairedCfg with retained := 1 }
 def staleEvent : List Op :=
   [.crash true, .store, .store, .store, .store, .store, .store, .store, .store, .writeL1 9,
    .revert, .revert, .revert, .revert, .evL2 6]
 
-/-- NEGATION (genuine defect of the code in /repo; known finding `head-block-pruned-after-stale-event`):
-everything before the event is a legal history; the event is handled as if block 6 existed: `pruneUpto(5)`.
-With batch threshold 1 the batches `[0,4)` are written — the HEAD BLOCK 3 is pruned (`Head()` fails, no
-oldest retained block), the floor is above the head — and the next batch fails on the missing block 4. -/
-theorem stale_new_head_event_prunes_head_block :
-    Reach staleCfg (run staleCfg St.init staleEvent.dropLast) ∧
-    (run staleCfg St.init staleEvent).db.height = some 3 ∧
-    effFloor (run staleCfg St.init staleEvent) = 5 ∧
-    (let s := run staleCfg St.init (staleEvent ++ [.flush 4])
-     answer staleCfg s .blockByNumber 3 = .notfound ∧ oldest s.db = none ∧ (step staleCfg s (.flush 1)).2 = .err) :=
-  ⟨reach_run Reach.init _ (by decide), by decide⟩
-
-/-- NEGATION, default batch threshold (known finding `shared-floor-above-head-after-stale-event`): the one
-batch fails before anything is written, but the shared `RetentionFloor` was already raised to 5: historical
-state at the head (block 3) and one below is refused until the process restarts. -/
-theorem stale_new_head_event_raises_shared_floor_above_head :
-    (step staleCfg (run staleCfg St.init staleEvent) (.flush 5)).2 = .err ∧
-    (let s := (step staleCfg (run staleCfg St.init staleEvent) (.flush 5)).1
-     lo s.db = 0 ∧ answer staleCfg s .stateAtNumber 3 = .notfound ∧ answer staleCfg s .stateAtNumber 2 = .notfound ∧
-     answer staleCfg s .blockByNumber 3 = .ok) := by decide
-
-/-- With the proposed clamp the same history is legal to its end and the event does nothing
-(`floor_bound_head` is the general statement). -/
-theorem clamped_stale_new_head_event_ignored :
-    let c : Cfg := { staleCfg with l2Clamps := true }
+/-- The history is legal to its end and the stale event does nothing (`floor_bound_head` is the general
+statement; what happened before 868e51a: Regress.lean). -/
+theorem stale_new_head_event_ignored :
+    let c : Cfg := staleCfg
     Reach c (run c St.init staleEvent) ∧ effFloor (run c St.init staleEvent) = 0 ∧
     answer c (run c St.init staleEvent) .blockByNumber 3 = .ok ∧
     answer c (run c St.init staleEvent) .stateAtNumber 3 = .ok :=
